@@ -199,6 +199,61 @@ class WithLock(BlockRewriter):
         return out
 
 
+class PyUpgrade(ast.NodeTransformer):
+    """what pyupgrade --py3-plus does: `super(C, self)` -> `super()` inside methods of C, `class X(object)` -> `class X`,
+    `set([a, b])` -> `{a, b}`, `dict((k, v) for ..)` -> `{k: v for ..}`, `"%s" % (x,)` untouched (text must stay identical)"""
+    def __init__(self):
+        self.cls = []
+
+    def visit_ClassDef(self, n):
+        n.bases = [b for b in n.bases if not (isinstance(b, ast.Name) and b.id == "object")] if not n.keywords or True else n.bases
+        self.cls.append(n.name)
+        self.generic_visit(n)
+        self.cls.pop()
+        return n
+
+    def visit_FunctionDef(self, n):
+        first = n.args.args[0].arg if n.args.args else None
+        saved = getattr(self, "first", None)
+        # nested functions have no implicit __class__ cell for zero-argument super(): keep the explicit form there
+        self.first = first if self.cls and getattr(self, "depth", 0) == 0 else None
+        self.depth = getattr(self, "depth", 0) + 1
+        self.generic_visit(n)
+        self.depth -= 1
+        self.first = saved
+        return n
+
+    def visit_Call(self, n):
+        self.generic_visit(n)
+        if isinstance(n.func, ast.Name) and n.func.id == "super" and len(n.args) == 2 and self.cls and \
+                isinstance(n.args[0], ast.Name) and n.args[0].id == self.cls[-1] and isinstance(n.args[1], ast.Name) and \
+                n.args[1].id == getattr(self, "first", None):
+            n.args = []
+        if isinstance(n.func, ast.Name) and n.func.id in ("set",) and len(n.args) == 1 and not n.keywords and \
+                isinstance(n.args[0], (ast.List, ast.Tuple)) and n.args[0].elts and \
+                not any(isinstance(e, ast.Starred) for e in n.args[0].elts):
+            return ast.copy_location(ast.Set(elts=n.args[0].elts), n)
+        if isinstance(n.func, ast.Name) and n.func.id == "dict" and len(n.args) == 1 and not n.keywords and \
+                isinstance(n.args[0], ast.GeneratorExp) and isinstance(n.args[0].elt, ast.Tuple) and len(n.args[0].elt.elts) == 2:
+            g = n.args[0]
+            return ast.copy_location(ast.DictComp(key=g.elt.elts[0], value=g.elt.elts[1], generators=g.generators), n)
+        return n
+
+
+class OSErrorAliases(ast.NodeTransformer):
+    """Python 3 aliases of OSError spelled as OSError: IOError, EnvironmentError, socket.error (same class objects)"""
+    def visit_Name(self, n):
+        if isinstance(n.ctx, ast.Load) and n.id in ("IOError", "EnvironmentError"):
+            n.id = "OSError"
+        return n
+
+    def visit_Attribute(self, n):
+        self.generic_visit(n)
+        if isinstance(n.ctx, ast.Load) and n.attr == "error" and isinstance(n.value, ast.Name) and n.value.id == "socket":
+            return ast.copy_location(ast.Name(id="OSError", ctx=ast.Load()), n)
+        return n
+
+
 MODES = {"withlock": WithLock, "flipcmp": FlipCmp, "earlyret": EarlyRet, "elseify": Elseify, "swapif": SwapIf, "demorgan": DeMorgan, "tmpvar": TmpVar}
 
 
@@ -208,6 +263,14 @@ def transform(text, mode):
         for node in ast.walk(tree):
             if isinstance(node, (ast.FunctionDef, ast.AsyncFunctionDef)):
                 MODES[mode]().visit(node)
+        ast.fix_missing_locations(tree)
+        return ast.unparse(tree) + "\n"
+    if mode == "oserror":
+        tree = OSErrorAliases().visit(tree)
+        ast.fix_missing_locations(tree)
+        return ast.unparse(tree) + "\n"
+    if mode == "pyupgrade":
+        tree = PyUpgrade().visit(tree)
         ast.fix_missing_locations(tree)
         return ast.unparse(tree) + "\n"
     if mode == "rename":
